@@ -5,7 +5,7 @@ from .common import TRUSTED, ASSUMPTIONS, default_nontrivial, LEVEL_NOTE, TECHNI
 from .C08 import table
 
 LEVEL = "proof"
-THEOREMS = []
+THEOREMS = ['C16_simplex_fuse', 'C16_ecm_simplex_refused', 'C16_bare_simplex', 'C16_ptr_eq_redundant', 'C16_assign', 'C16_fuse_ptr_eq']
 RULE = ("each base case (fuse/fuse_os/fuse_ss x 4 operators, proj, umax, discount, mbr, deduce, deduce_with, inverse, abduce_with, prod2, "
         "merge on dyadic operands) is run in every container family {[V;N], MArr1, MArrD1 usize, MArrD1 newtype} x {Opinion, OpinionRef} x "
         "{owned, borrowed tables} x {fuse, fuse_assign} x {f32, f64}; cross-case: all variants of one precision must agree within 4 ulps "
